@@ -204,6 +204,43 @@ def zoo_cases(prop, educed, std_for_educe_type, twin_derives, body_check):
     return out
 
 
+# ---- dynamically sized structs: the last field is a `?Sized` parameter (values reach it through unsized coercion); oracle: the std derive on a twin
+UNSIZED_CHECKS = {
+    'C02': ('PartialEq', 'PartialEq',
+            '            r.ck((**x == **y) == (**tx == **ty), 0, &|| format!("values #{} and #{}: == gives {}, #[derive(PartialEq)] gives {}", i, j, **x == **y, **tx == **ty));\n'
+            '            r.ck((**x != **y) == (**tx != **ty), 1, &|| format!("values #{} and #{}: != disagrees with #[derive(PartialEq)]", i, j));\n'),
+    'C03': ('PartialEq, Eq, PartialOrd, Ord', 'PartialEq, Eq, PartialOrd, Ord',
+            '            r.ck(x.partial_cmp(y) == tx.partial_cmp(ty), 0, &|| format!("values #{} and #{}: partial_cmp gives {:?}, the std derive gives {:?}", i, j, x.partial_cmp(y), tx.partial_cmp(ty)));\n'
+            '            r.ck(x.cmp(y) == tx.cmp(ty), 1, &|| format!("values #{} and #{}: cmp gives {:?}, the std derive gives {:?}", i, j, x.cmp(y), tx.cmp(ty)));\n'
+            '            r.ck((**x < **y, **x <= **y, **x > **y, **x >= **y) == (**tx < **ty, **tx <= **ty, **tx > **ty, **tx >= **ty), 2, &|| format!("values #{} and #{}: the operators disagree with the std derive", i, j));\n'),
+    'C03p': ('PartialEq, PartialOrd', 'PartialEq, PartialOrd',
+             '            r.ck(x.partial_cmp(y) == tx.partial_cmp(ty), 0, &|| format!("values #{} and #{}: partial_cmp gives {:?}, the std derive gives {:?}", i, j, x.partial_cmp(y), tx.partial_cmp(ty)));\n'),
+    'C05': ('Hash', 'Hash',
+            '            if i == j { r.ck(trace_of(&&**x).unwrap() == trace_of(&&**tx).unwrap(), 0, &|| format!("value #{}: feeds {:?}, #[derive(Hash)] feeds {:?}", i, trace_of(&&**x).unwrap(), trace_of(&&**tx).unwrap())); }\n'),
+    'C06': ('Debug', 'Debug',
+            '            if i == j { r.ck(format!("{:?}", x) == format!("{:?}", tx), 0, &|| format!("value #{}: {{:?}} gives {:?}, #[derive(Debug)] gives {:?}", i, format!("{:?}", x), format!("{:?}", tx)));\n'
+            '                        r.ck(format!("{:#?}", x) == format!("{:#?}", tx), 1, &|| format!("value #{}: {{:#?}} gives {:?}, #[derive(Debug)] gives {:?}", i, format!("{:#?}", x), format!("{:#?}", tx))); }\n'),
+}
+
+
+def unsized_cases(prop, which=None):
+    from ..core import Case
+    educed, twin, body = UNSIZED_CHECKS[which or prop]
+    out = []
+    tails = [('0', '[1u8, 2]'), ('0', '[1u8, 2, 3]'), ('1', '[1u8]'), ('0', '[1u8, 3]'), ('1', '[0u8; 0]'), ('1', '[1u8, 2]')]
+    for kind, decl, mk in (('gn', 'pub struct Ty<T: ?Sized> { pub a: u8, pub tail: T }', '{P}Ty {{ a: {a}, tail: {t} }}'),
+                           ('gt', 'pub struct Ty<T: ?Sized>(pub u8, pub T);', '{P}Ty({a}, {t})'),
+                           ('gw', 'pub struct Ty<T> where T: ?Sized { pub a: u8, pub b: u16, pub tail: T }', '{P}Ty {{ a: {a}, b: 7, tail: {t} }}')):
+        src = '#[derive(Educe)]\n#[educe(%s)]\n%s\n' % (educed, decl)
+        src += 'mod tw {\n    #[derive(%s)]\n    %s\n}\n' % (twin, decl)
+        src += 'pub fn check(r: &mut Rep) {\n    let vs: Vec<(Box<Ty<[u8]>>, Box<tw::Ty<[u8]>>)> = vec![\n%s    ];\n' % ''.join(
+            '        (Box::new(%s), Box::new(%s)),\n' % (mk.format(P='', a=a, t=t), mk.format(P='tw::', a=a, t=t)) for a, t in tails)
+        src += '    for (i, (x, tx)) in vs.iter().enumerate() {\n        for (j, (y, ty)) in vs.iter().enumerate() {\n            let _ = (j, y, ty);\n%s        }\n    }\n}\n' % body
+        out.append(Case('%s|unsized|%s%s' % (prop, kind, '|' + which if which and which != prop else ''), src, {'shape': decl, 'educed': educed, 'oracle': '#[derive(%s)] on a twin, values behind Box<Ty<[u8]>>' % twin},
+                        expect='accept', run=True, depth=1))
+    return out
+
+
 # ---- a hostile environment for the derive: modules called `core` and `std` in scope whose traits are decoys (blanket-implemented, wrong answers).
 # Generated code that reaches a std item through a relative path (`core::hash::Hash::hash(..)`) instead of `::core::..` gets the decoy.
 DECOYS = '''#[allow(dead_code, unused)]
